@@ -29,7 +29,7 @@ DEADLINE = float(os.environ.get("C14_DEADLINE", "5"))     # the only wall-clock 
 TRUSTED = [
     "Coq 8.16.1 kernel (coqc) incl. vm_compute (closed-set reflection C14_all and the _refuted witness)",
     "Print Assumptions: all C14 theorems closed under the global context (no axioms)",
-    "translator harness/c14.py:generate (Python ast): whether _cleanup_pending_responses iterates a copy, whether _run's finally clears self.writer and calls the cleanup",
+    "translator harness/c14.py:generate (Python ast): whether _cleanup_pending_responses iterates a copy, whether _run's finally clears self.writer and calls the cleanup, whether both handlers of execute_server_command hand a fresh KlongException to result_future.set_exception",
     "extraction: ExtrOcamlBasic only; ocaml/driver.ml",
     "correspondence harness: gates inside ioloop.create_future / asyncio.run_coroutine_threadsafe, the recording writer stub, asyncio.StreamReader feed_data/feed_eof/set_exception, quiescence detection by marker callbacks",
 ]
@@ -39,6 +39,8 @@ ASSUME = [
     "frames reach _listen intact whatever the fragmentation (theorem C13_frame_delivery); a cut inside id / length / body or between frames raises IncompleteReadError (C13_cut_delivery), re-checked here on the real StreamReader",
     "the server answers a request only after it was sent, answers a close request with KGRemoteCloseConnection, and a server-side evaluation error shows at the client as the connection being closed (read in TcpServerConnectionHandler / NetworkClient._run)",
     "real TCP behaviour (half-open sockets, RST timing, writer.drain() failing before the reader sees the reset) is not exhibited by in-memory streams",
+    "server half: an evaluation failure is an Exception; a BaseException that is not an Exception (KeyboardInterrupt, SystemExit, CancelledError, user classes) is caught by neither handler of execute_server_command and is outside the domain (modelled, stated as C14_server_baseexception_outside_domain, compared but not judged)",
+    "asyncio.Future.set_exception refuses StopIteration (and subclasses) with TypeError and accepts every other Exception instance (modelled as future_accepts, exercised on the real loop)",
     "a caller that is still blocked 5 s (+5 s confirmation) after the step that should release it is reported as a hang",
 ]
 
@@ -104,6 +106,34 @@ def generate():
                 calls_cleanup = True
         return clears_writer, calls_cleanup
 
+    def server_flags():
+        m = astlib.module("klongpy/sys_fn_ipc.py")
+        fn = astlib.find_func(m, "execute_server_command")
+        tries = [n for n in fn.body if isinstance(n, ast.Try)]
+        if len(tries) != 1:
+            raise ShapeError("execute_server_command: expected one top-level try")
+        res = {}
+        for h in tries[0].handlers:
+            if not isinstance(h.type, ast.Name) or h.type.id not in ("KeyError", "Exception"):
+                raise ShapeError("unexpected handler %s" % (ast.unparse(h.type) if h.type else "bare"))
+            sets = [c for c in astlib.calls_in(h, "call_soon_threadsafe")
+                    if len(c.args) == 2 and isinstance(c.args[0], ast.Attribute) and c.args[0].attr == "set_exception"]
+            top = [s_ for s_ in h.body if isinstance(s_, ast.Expr) and s_.value in sets]
+            if len(sets) != 1 or len(top) != 1:
+                raise ShapeError("handler %s: expected exactly one unconditional call_soon_threadsafe(result_future.set_exception, ...)" % h.type.id)
+            arg = sets[0].args[1]
+            def is_fresh(e):
+                return isinstance(e, ast.Call) and isinstance(e.func, ast.Name) and e.func.id == "KlongException"
+            wraps = is_fresh(arg)
+            if isinstance(arg, ast.Name) and arg.id != h.name:
+                defs = [s_ for s_ in h.body if isinstance(s_, ast.Assign) and len(s_.targets) == 1
+                        and isinstance(s_.targets[0], ast.Name) and s_.targets[0].id == arg.id]
+                wraps = len(defs) == 1 and is_fresh(defs[0].value)
+            res[h.type.id] = wraps
+        if set(res) != {"KeyError", "Exception"}:
+            raise ShapeError("handlers found: %r" % sorted(res))
+        return res["Exception"], res["KeyError"]
+
     cf, why1 = astlib.try_flag(cleanup_flags)
     rf, why2 = astlib.try_flag(run_flags)
     snapshot, clears = cf if cf is not None else (False, False)
@@ -115,6 +145,12 @@ def generate():
     out.append("Definition cleanup_iterates_snapshot : bool := %s." % astlib.coq_bool(snapshot))
     out.append("Definition finally_clears_writer : bool := %s." % astlib.coq_bool(clears_writer))
     out.append("Definition finally_cleans_pending : bool := %s." % astlib.coq_bool(clears and calls_cleanup))
+    sf, why3 = astlib.try_flag(server_flags)
+    if why3:
+        out.append("(* execute_server_command shape not recognised: %s *)" % why3)
+    wg, wk = sf if sf is not None else (False, False)
+    out.append("Definition server_wraps_generic_errors : bool := %s." % astlib.coq_bool(wg))
+    out.append("Definition server_wraps_keyerror : bool := %s." % astlib.coq_bool(wk))
     return "\n".join(out) + "\n"
 
 
@@ -317,6 +353,30 @@ def gen_scripts(rng, tier):
         steps = interleave(rng, seqs + [env])
         add("random", closers, steps + finale(rng, n, answer=True, final_cut=rng.random() < 0.7))
     return S
+
+
+# ---- the server half: request kinds, the outcome class of their evaluation, what a response must carry
+SERVER_KINDS = {
+    "val_str": "val", "val_call": "val", "set": "val", "sym": "val",
+    "fn_str": "fn", "fn_get": "fn", "fn_py": "fn",
+    "unpicklable": "unpicklable",
+    "klong": "klong", "syntax": "ordinary", "value": "ordinary", "custom": "ordinary", "arity": "ordinary",
+    "key_nosuch": "keyerror", "key": "keyerror",
+    "stop": "stopiter", "mystop": "stopiter", "gen_exhausted": "stopiter",
+    "base": "base",
+}
+
+
+def gen_server_sequences(rng, tier):
+    kinds = sorted(SERVER_KINDS)
+    seqs = []
+    for k in kinds:
+        seqs.append([k, "val_str"])
+        seqs.append(["val_call", k, "val_str"])
+    for i in range(12 if tier == "quick" else 150):
+        n = rng.randint(3, 6)
+        seqs.append([rng.choice(kinds) if rng.random() < 0.4 else rng.choice(["val_str", "val_call", "set", "fn_str", "fn_get", "sym"]) for _ in range(n)])
+    return seqs
 
 
 # =============================================================================================== implementation driver (child)
@@ -691,6 +751,142 @@ def child_main():
                     except Exception:
                         pass
 
+    KEEP = []       # strong references: a garbage-collected handle_client coroutine runs nc.cleanup() -> _stop() on whatever thread collects it
+
+    class MyErr(Exception):
+        pass
+
+    class MyStop(StopIteration):
+        pass
+
+    class MyBase(BaseException):
+        pass
+
+    class SrvWriter:
+        def __init__(self):
+            self.frames = []
+            self.closed = False
+
+        def write(self, data):
+            mid = bytes(data[:16])
+            n = struct.unpack("!I", data[16:20])[0]
+            self.frames.append((mid, pickle.loads(data[20:20 + n])))
+
+        async def drain(self):
+            return None
+
+        def close(self):
+            self.closed = True
+
+        def is_closing(self):
+            return self.closed
+
+        async def wait_closed(self):
+            return None
+
+        def get_extra_info(self, name, default=None):
+            return ("127.0.0.1", 1) if name == "peername" else default
+
+    def server_play(kinds):
+        """a real server-side NetworkClient (TcpServerHandler.handle_client -> run_server) with a real interpreter on its own
+        klong loop; the harness is the client at frame level"""
+        from klongpy import KlongInterpreter
+        from klongpy.core import KGSym
+        from klongpy.utils import CallbackEvent
+        io, iot, ios = setup_async_loop()
+        kl, klt, kls = setup_async_loop()
+        klong = KlongInterpreter()
+        klong['.system'] = {'ioloop': io, 'klongloop': kl, 'closeEvent': CallbackEvent()}
+        klong('double::{x*2}')
+
+        def boom(x):
+            raise {"klong": ipc.KlongException("evaluation failed"), "value": ValueError("v"), "key": KeyError("k"),
+                   "stop": StopIteration(), "mystop": MyStop(), "custom": MyErr("c"), "base": MyBase("b")}[x]
+        it = iter(())
+        klong['boom'] = boom
+        klong['parse'] = lambda x: int(x)
+        klong['pyfn'] = lambda x: x
+        klong['nextval'] = lambda: next(it)
+        klong['lock'] = threading.Lock()
+        F, S = ipc.KGRemoteFnCall, KGSym
+        reqs = {
+            "val_str": ("double(21)", 42), "val_call": (F(S("parse"), ["7"]), 7), "set": (ipc.KGRemoteDictSetCall(S("zz"), 5), None),
+            "sym": (":abc", S("abc")),
+            "fn_str": ("double", "fnref"), "fn_get": (ipc.KGRemoteDictGetCall(S("double")), "fnref"),
+            "fn_py": (ipc.KGRemoteDictGetCall(S("pyfn")), "fnref"),
+            "unpicklable": (ipc.KGRemoteDictGetCall(S("lock")), None),
+            "klong": (F(S("boom"), ["klong"]), None), "syntax": ("1+", None), "value": (F(S("parse"), ["seven"]), None),
+            "custom": (F(S("boom"), ["custom"]), None), "arity": (F(S("parse"), [1, 2, 3]), None),
+            "key_nosuch": (F(S("nosuchfn"), [1]), None), "key": (F(S("boom"), ["key"]), None),
+            "stop": (F(S("boom"), ["stop"]), None), "mystop": (F(S("boom"), ["mystop"]), None), "gen_exhausted": (F(S("nextval"), []), None),
+            "base": (F(S("boom"), ["base"]), None),
+        }
+        reader = asyncio.StreamReader(loop=io)
+        w = SrvWriter()
+        h = ipc.TcpServerHandler()
+        h.connection_handler = ipc.TcpServerConnectionHandler(io, kl, klong)
+        started = threading.Event()
+
+        def start():
+            KEEP.append((asyncio.ensure_future(h.handle_client(reader, w), loop=io), reader, w, h, klong, io, kl))
+            started.set()
+        io.call_soon_threadsafe(start)
+        started.wait(2 * DEADLINE)
+
+        def quiesce():
+            for _ in range(6):
+                for lp in (io, kl, io):
+                    e = threading.Event()
+                    lp.call_soon_threadsafe(e.set)
+                    if not e.wait(4 * DEADLINE):
+                        raise RuntimeError("a loop does not respond")
+        quiesce()
+        observed, notes, hung = [], [], False
+        silent_before = False
+        for i, kind in enumerate(kinds):
+            msg, want = reqs[kind]
+            mid = uuid.UUID(int=(i + 1) * 0x1000001)
+            if w.closed:
+                observed.append("closed")
+                continue
+            n0 = len(w.frames)
+            io.call_soon_threadsafe(reader.feed_data, ipc.encode_message(mid, msg))
+            quiesce()
+            must_react = (SERVER_KINDS[kind] != "base") and not silent_before
+            if must_react and len(w.frames) == n0 and not w.closed:
+                t0 = time.time()
+                while time.time() - t0 < 2 * DEADLINE and len(w.frames) == n0 and not w.closed:
+                    time.sleep(0.05)
+                if len(w.frames) == n0 and not w.closed:
+                    hung = True
+            new = w.frames[n0:]
+            if new:
+                if len(new) != 1 or new[0][0] != mid.bytes:
+                    notes.append("request %d (%s): frames written %r" % (i, kind, [(f[0] == mid.bytes, repr(f[1])[:40]) for f in new]))
+                    observed.append("wrong")
+                    continue
+                body = new[0][1]
+                if isinstance(body, ipc.KGRemoteFnRef):
+                    observed.append("fnref")
+                else:
+                    ok = (want != "fnref") and (body == want if want is not None or kind == "set" else False)
+                    if not ok:
+                        notes.append("request %d (%s): response body %r, wanted %r" % (i, kind, body, want))
+                        observed.append("wrong")
+                    else:
+                        observed.append("resp")
+            elif w.closed:
+                observed.append("teardown")
+            else:
+                observed.append("stuck" if silent_before else "nothing")
+                silent_before = True
+        for lp, st in ((io, ios), (kl, kls)):
+            try:
+                lp.call_soon_threadsafe(st.set)
+            except Exception:
+                pass
+        return {"served": observed, "notes": notes, "hung": hung}
+
     sys.stderr = open(os.devnull, "w")
     import logging
     logging.disable(logging.CRITICAL)
@@ -707,7 +903,10 @@ def child_main():
             sys.stdout.flush()
             continue
         try:
-            r = Play(job["script"]).run(set(job.get("expect_done", [])))
+            if "server" in job:
+                r = server_play(job["server"])
+            else:
+                r = Play(job["script"]).run(set(job.get("expect_done", [])))
             if r.get("hung"):
                 hangs += 1
         except Exception:
@@ -874,6 +1073,50 @@ def evaluate(chk, scripts, label="scripts"):
     return prop_fail, corr_fail, infra
 
 
+def evaluate_server(chk, seqs):
+    """the server half: real handle_client/run_server/execute_server_command against `serve` of the extracted model"""
+    seen, uniq = set(), []
+    for q in seqs:
+        if tuple(q) not in seen:
+            seen.add(tuple(q))
+            uniq.append(q)
+    outs = chk.run_model([sx(["srv", [SERVER_KINDS[k] for k in q]]) for q in uniq])
+    res = run_impl([{"server": q} for q in uniq])
+    prop_fail, corr_fail, infra = [], [], []
+    for q, o, r in zip(uniq, outs, res):
+        if r.get("skipped"):
+            chk.count("skipped_after_two_hangs_in_worker")
+            continue
+        chk.count("evaluations")
+        chk.count("server_sequences")
+        if "error" in r or o[0] != "ok":
+            infra.append({"server_requests": q, "error": r.get("error", repr(o))})
+            continue
+        chk.count("distinct_nontrivial")
+        chk.count("server_requests", len(q))
+        mv = model_view(o)
+        served = r["served"]
+        bad = None
+        in_dom = True
+        for i, (k, sv) in enumerate(zip(q, served)):
+            in_dom = in_dom and SERVER_KINDS[k] != "base"
+            if sv == "wrong":
+                bad = "request %d (%s) was answered with something that is not its own answer" % (i, k)
+                break
+            if sv in ("nothing", "stuck") and in_dom:
+                bad = "request %d (%s): the server neither answers nor closes the connection (the caller waits forever)" % (i, k)
+                break
+        if bad is not None:
+            prop_fail.append({"server_requests": q, "outcome_classes": [SERVER_KINDS[k] for k in q], "observed": served,
+                              "model": mv["served"], "what": bad, "notes": r["notes"]})
+            continue
+        if served != mv["served"]:
+            corr_fail.append({"server_requests": q, "difference": "server half differs: model %r / implementation %r" % (mv["served"], served),
+                              "notes": r["notes"]})
+        chk.sample({"server_requests": q, "served": served}, limit=8)
+    return prop_fail, corr_fail, infra
+
+
 def run(tier, replay=None):
     chk = Check("C14", tier)
     rng = random.Random(chk.seed * 7919 + 14)
@@ -887,10 +1130,15 @@ def run(tier, replay=None):
         proof["broken"] = hits[0]
     scripts = gen_scripts(rng, tier)
     prop_fail, corr_fail, infra = evaluate(chk, scripts)
+    spf, scf, sinfra = evaluate_server(chk, gen_server_sequences(rng, tier))
+    infra += sinfra
     if infra:
         raise RuntimeError("implementation driver failed on %d scripts, first: %s" % (len(infra), json.dumps(infra[0])[:1500]))
+    for pf in spf[:2]:
+        chk.violation("server half: %s in request sequence %r" % (pf["what"], pf["server_requests"]), pf)
+    corr_fail += scf
     searched = False
-    if not prop_fail and (corr_fail or not proof["ok"]) and tier == "quick":
+    if not prop_fail and not spf and (corr_fail or not proof["ok"]) and tier == "quick":
         # something no longer checks: look harder for a concrete failing history (the thorough universe)
         searched = True
         more = gen_scripts(random.Random(chk.seed * 7919 + 15), "thorough")
@@ -914,7 +1162,9 @@ def run(tier, replay=None):
         rule="scripts = schedules of the atomic steps of <=3 calls (invoke / register / schedule+send, gated inside the real code) interleaved with "
              "environment steps (response frames in every arrival order and fragmentation, duplicates, server pushes, EOF inside id/length/body/"
              "between frames, reset, server-initiated close, failing dispatch, close() acks, a registration inside the cleanup loop), each played "
-             "out to a maximal run; distinct = distinct effective script after the model dropped disabled steps; non-trivial = >=2 calls or a fault",
+             "out to a maximal run; server half = request sequences on a real handle_client/run_server with a real interpreter, one request kind per evaluation "
+             "outcome class (values, functions, unpicklable value, KlongException, syntax error, ValueError, user Exception, arity error, unknown symbol, KeyError, "
+             "StopIteration, StopIteration subclass, exhausted iterator, BaseException) each followed by a further request; distinct = distinct effective script after the model dropped disabled steps; non-trivial = >=2 calls or a fault",
         trusted_base=TRUSTED, assumptions=ASSUME,
         extra={"traces_validated_against_impl": chk.counters.get("evaluations", 0), "wider_search_ran": searched})
 
@@ -924,6 +1174,16 @@ def replay(path):
     rp = body.get("replay", {})
     print(json.dumps(body, indent=1)[:3000])
     s = rp.get("script")
+    if rp.get("server_requests"):
+        chk = Check("C14", "quick")
+        chk.generate(generate())
+        chk.build_model()
+        q = rp["server_requests"]
+        o = chk.run_model([sx(["srv", [SERVER_KINDS[k] for k in q]])])[0]
+        r = run_impl([{"server": q}], workers=1)[0]
+        print("expected (model): %s" % sx(o))
+        print("actual (implementation): %s" % json.dumps(r))
+        return 0
     if not s:
         return 0
     chk = Check("C14", "quick")
